@@ -1060,6 +1060,14 @@ func wireRandom(r *rand.Rand) wireCase {
 		switch r.Intn(10) {
 		case 0:
 			return wireOne(r, "bytes=0-"+wireBoundary(r), "bytes="+wireBoundary(r)+"-", "bytes="+strconv.Itoa(r.Intn(4))+"-"+wireBoundary(r), "bytes="+wireBoundary(r)+"-"+wireBoundary(r))
+		case 3:
+			// degenerate specs: bare dashes, empty specs, blanks, suffix ranges, among ordinary ones; unit missing or alone
+			k := 1 + r.Intn(4)
+			specs := make([]string, k)
+			for i := range specs {
+				specs[i] = wireOne(r, "-", "-", "", " ", " - ", "\t-", "--", "-5", "- 5", "0-1", "3-", " 0 - 1 ", "x", "0--1", "0")
+			}
+			return wireOne(r, "bytes=", "bytes=", "bytes=", "bytes= ", "bytes", "", "=", "Bytes=", "items=") + strings.Join(specs, wireOne(r, ",", ",", ", ", " ,"))
 		case 2:
 			return wireOne(r, "bytes=", "bytes=-", "bytes=a-b", "bytes=0-1,3-4", "bytes=-3", "bytes= 0 - 1 ", "items=0-1", "bytes=5-2", "bytes=99999999999-", "bytes=1-99999999999", "bytes=+1-2", "bytes=0-0,")
 		case 1:
